@@ -455,8 +455,15 @@ Definition legal (plan : list step) (msgs : list msg) : bool :=
 Definition sxN (s : sx) : option N :=
   match s with SZ z => if (z <? 0)%Z then None else Some (Z.to_N z) | _ => None end.
 
+(* Adler-style checksum (additions and one conditional subtraction per byte: cheap on binary N) *)
+Definition hash_step (st : N * N) (x : N) : N * N :=
+  let a := fst st + x + 1 in
+  let a := if 65521 <=? a then a - 65521 else a in
+  let b := snd st + a in
+  let b := if 65521 <=? b then b - 65521 else b in
+  (a, b).
 Definition hash_bytes (b : bytes) : N :=
-  fold_left (fun h x => (h * 16777619 + x + 1) mod 4294967291) b 0.
+  let '(x, y) := fold_left hash_step b (0, 0) in y * 65536 + x.
 
 (* payload (len a): the first len bytes of the 251-byte block a, a+1, ... (mod 251) repeated *)
 Definition block (a : N) : bytes := map (fun j => (a + N.of_nat j) mod 251) (seq 0 251).
